@@ -334,6 +334,8 @@ fn router_survives_every_short_event_history() {
 enum Req {
     Pub1(u16),
     Pub2(u16),
+    /// a QoS 2 publish retransmitted with the DUP flag that this connection sees for the first time
+    Pub2Dup(u16),
     Rel(u16),
     Sub(u16, usize),
     Unsub(u16, bool),
@@ -351,7 +353,7 @@ fn expected_replies(reqs: &[Req]) -> (Vec<String>, bool) {
     for q in reqs {
         match q {
             Req::Pub1(k) => out.push(format!("PUBACK({})", k)),
-            Req::Pub2(k) => { out.push(format!("PUBREC({})", k)); held.push_back(*k); }
+            Req::Pub2(k) | Req::Pub2Dup(k) => { out.push(format!("PUBREC({})", k)); held.push_back(*k); }
             Req::Rel(k) => { if held.pop_front().is_some() { out.push(format!("PUBCOMP({})", k)); } else { return (out, true); /* unsolicited release: connection closed */ } }
             Req::Sub(k, n) => out.push(format!("SUBACK({},{} codes)", k, n)),
             Req::Unsub(k, _) => out.push(format!("UNSUBACK({})", k)),
@@ -367,6 +369,7 @@ fn to_packet(q: &Req) -> Packet {
     match q {
         Req::Pub1(k) => publish("q/1", 1, *k, "x", false),
         Req::Pub2(k) => publish("q/2", 2, *k, "y", false),
+        Req::Pub2Dup(k) => match publish("q/2", 2, *k, "y", false) { Packet::Publish(mut p, pr) => { p.dup = true; Packet::Publish(p, pr) } other => other },
         Req::Rel(k) => pubrel(*k),
         Req::Sub(k, n) => {
             let fs: Vec<(&str, u8)> = [("s/a", 0u8), ("s/+", 1u8), ("s/#", 2u8)][..*n].to_vec();
@@ -379,7 +382,7 @@ fn to_packet(q: &Req) -> Packet {
     }
 }
 
-const REQS: [Req; 9] = [Req::Pub1(11), Req::Pub2(12), Req::Rel(12), Req::Sub(13, 1), Req::Sub(14, 3), Req::Unsub(15, true), Req::Unsub(16, false), Req::UnsubTwo(17), Req::Ping];
+const REQS: [Req; 10] = [Req::Pub2Dup(12), Req::Pub1(11), Req::Pub2(12), Req::Rel(12), Req::Sub(13, 1), Req::Sub(14, 3), Req::Unsub(15, true), Req::Unsub(16, false), Req::UnsubTwo(17), Req::Ping];
 
 // @native props=C06 tier=quick fn=Router::handle_device_payload+ack_device_data+consume
 #[test]
@@ -1439,9 +1442,13 @@ enum Bad {
     DropLink,
     DisconnectPacket,
     ReadyOutOfTurn,
+    /// a protocol violation followed by more packets in the SAME batch
+    ViolationThenMoreInOneBatch,
+    SubscribeShared,
 }
 
-const BADS: [Bad; 14] = [
+const BADS: [Bad; 16] = [
+    Bad::ViolationThenMoreInOneBatch, Bad::SubscribeShared,
     Bad::Connect, Bad::Reconnect, Bad::UnsolicitedPubAck, Bad::UnsolicitedPubRec, Bad::UnsolicitedPubComp, Bad::UnsolicitedPubRel,
     Bad::PublishWildcardTopic, Bad::PublishUnicode, Bad::SubscribeBadFilter, Bad::SubscribeSameAsGoodAndStall, Bad::Flood, Bad::DropLink,
     Bad::DisconnectPacket, Bad::ReadyOutOfTurn,
@@ -1473,6 +1480,8 @@ fn misbehave(r: &mut Router, x: &mut Option<Client>, b: Bad) {
             }
         }
         Bad::ReadyOutOfTurn => { if let Some(c) = x { r.events(c.id, Event::Ready); settle(r); } }
+        Bad::ViolationThenMoreInOneBatch => { if let Some(c) = x { send(r, c, vec![puback(9), puback(9), puback(9), pubcomp(4), subscribe(8, &[("g/#", 1)])]); } }
+        Bad::SubscribeShared => { if let Some(c) = x { send(r, c, vec![subscribe(6, &[("$share/grp/jobs/#", 1)])]); } }
     }
 }
 
@@ -1516,6 +1525,16 @@ fn well_behaved_clients_are_unaffected_by_a_misbehaving_one() {
             if r.connection_map.get("good-sub") != Some(&g.id) || r.connection_map.get("good-pub") != Some(&p.id) {
                 return Err("a well-behaved client lost its connection".to_string());
             }
+            // a client that connects afterwards (possibly into a slot the third client used) and subscribes to
+            // nothing receives nothing, whatever the third client had subscribed to
+            let z = connect(&mut r, "newcomer", true).ok_or("a newcomer cannot connect")?;
+            let _ = drain(&mut r, &z);
+            send(&mut r, &p, vec![publish("jobs/1", 0, 0, "j", false), publish("g/t", 0, 0, "late", false), publish("x/flood", 0, 0, "f", false)]);
+            let stray = receive_all(&mut r, &z);
+            if !stray.is_empty() {
+                return Err(format!("a newcomer without any subscription received {:?}", stray));
+            }
+            let _ = receive_all(&mut r, &g);
             Ok(())
         }));
         let verdict = match verdict { Ok(v) => v, Err(_) => Err("routing core panicked".to_string()) };
@@ -1605,4 +1624,207 @@ fn stale_disconnect_does_not_touch_a_later_connection() {
         }
     }
     report(name, "C14", "slot reuse by takeover / by another client, then the ended connection's late Disconnect", cases, fail);
+}
+
+/// C09 with QoS 2 subscriptions: the window is freed by PUBREC (the broker answers PUBREL, the client PUBCOMP) and
+/// forwarding of the backlog resumes on those acknowledgements without any other stimulus
+// @native props=C09,C06 tier=quick fn=Router::handle_device_payload(PubRec/PubComp arms)+consume+forward_device_data
+#[test]
+fn qos2_window_resumes_on_pubrec_and_releases_are_completed() {
+    let name = "rumqttd::Router#qos2_outbound_window_resumes_on_pubrec";
+    let mut cases = 0u64;
+    let mut fail: Option<String> = None;
+    'outer: for backlog in [3usize, 100, 101, 230] {
+        for burst in [1usize, 9, 100] {
+            cases += 1;
+            let desc = format!("QoS 2 subscription, backlog {}, PUBREC bursts of {}", backlog, burst);
+            let mut r = new_router();
+            let s = connect(&mut r, "s", true).unwrap();
+            let p = connect(&mut r, "p", true).unwrap();
+            s.ibuf.lock().push_back(subscribe(1, &[("w/#", 2)]));
+            r.events(s.id, Event::DeviceData);
+            let pubs: Vec<Packet> = (0..backlog).map(|i| publish("w/x", 0, 0, &format!("{}", i), false)).collect();
+            p.ibuf.lock().extend(pubs);
+            r.events(p.id, Event::DeviceData);
+            settle(&mut r);
+            let mut awaiting_rec: VecDeque<u16> = VecDeque::new();
+            let mut awaiting_rel: VecDeque<u16> = VecDeque::new();
+            let mut received = 0usize;
+            let mut completed = 0usize;
+            for _ in 0..3000 {
+                let batch = drain(&mut r, &s);
+                for n in &batch {
+                    match n {
+                        RNotification::Forward(Forward { publish, .. }) => {
+                            received += 1;
+                            if publish.qos as u8 != 2 || publish.pkid == 0 || awaiting_rec.contains(&publish.pkid) {
+                                fail = Some(format!("input=[{}] detail=[forward with QoS {} id {} while ids {:?} are unacknowledged]", desc, publish.qos as u8, publish.pkid, awaiting_rec));
+                                break 'outer;
+                            }
+                            awaiting_rec.push_back(publish.pkid);
+                            if awaiting_rec.len() > 100 {
+                                fail = Some(format!("input=[{}] detail=[{} QoS 2 publishes awaiting acknowledgement]", desc, awaiting_rec.len()));
+                                break 'outer;
+                            }
+                        }
+                        RNotification::DeviceAck(Ack::PubRel(x)) => {
+                            // every PUBREC is answered by exactly one PUBREL with the same id, in order
+                            if awaiting_rel.pop_front() != Some(x.pkid) {
+                                fail = Some(format!("input=[{}] detail=[unexpected PUBREL({})]", desc, x.pkid));
+                                break 'outer;
+                            }
+                            completed += 1;
+                            send(&mut r, &s, vec![pubcomp(x.pkid)]);
+                        }
+                        _ => {}
+                    }
+                }
+                if awaiting_rec.is_empty() {
+                    if batch.is_empty() {
+                        break;
+                    }
+                    continue;
+                }
+                let k = burst.min(awaiting_rec.len());
+                let mut recs = vec![];
+                for _ in 0..k {
+                    let id = awaiting_rec.pop_front().unwrap();
+                    awaiting_rel.push_back(id);
+                    recs.push(pubrec(id));
+                }
+                send(&mut r, &s, recs);
+            }
+            if r.obufs.get(s.id).is_none() {
+                fail = Some(format!("input=[{}] detail=[a well-behaved QoS 2 subscriber was disconnected]", desc));
+                break 'outer;
+            }
+            if received != backlog || completed != backlog || !awaiting_rel.is_empty() {
+                fail = Some(format!("input=[{}] detail=[{} of {} messages delivered, {} releases received, {} PUBRECs unanswered; broker idle]", desc, received, backlog, completed, awaiting_rel.len()));
+                break 'outer;
+            }
+        }
+    }
+    report(name, "C09,C06", "QoS 2 subscription, backlogs 3,100,101,230 x PUBREC bursts 1,9,100", cases, fail);
+}
+
+/// C15: retained messages that fit into what is left of the delivery window are delivered (and flagged), also when the
+/// window is nearly full at the time of the subscription
+// @native props=C15 tier=quick fn=Router::forward_device_data (retained + window budget)
+#[test]
+fn retained_messages_fit_into_a_nearly_full_window() {
+    let name = "rumqttd::Router#retained_delivered_when_they_fit_the_window";
+    let mut cases = 0u64;
+    let mut fail: Option<String> = None;
+    'outer: for unacked in [0usize, 98, 99] {
+        for retained in 1..=2usize {
+            if unacked + retained > 100 {
+                continue;
+            }
+            cases += 1;
+            let desc = format!("{} unacknowledged QoS 1 forwards, then a new QoS 1 subscription matching {} retained message(s)", unacked, retained);
+            let mut r = new_router();
+            let s = connect(&mut r, "s", true).unwrap();
+            let p = connect(&mut r, "p", true).unwrap();
+            for i in 0..retained {
+                send(&mut r, &p, vec![publish(&format!("ret/{}", i), 0, 0, &format!("keep{}", i), true)]);
+            }
+            send(&mut r, &s, vec![subscribe(1, &[("live/#", 1)])]);
+            let pubs: Vec<Packet> = (0..unacked).map(|i| publish("live/x", 0, 0, &format!("{}", i), false)).collect();
+            for chunk in pubs.chunks(40) {
+                send(&mut r, &p, chunk.to_vec());
+            }
+            // the subscriber reads but does not acknowledge yet
+            let first = drain(&mut r, &s);
+            let mut pending: Vec<u16> = first.iter().filter_map(|n| match n { RNotification::Forward(Forward { publish, .. }) => Some(publish.pkid), _ => None }).collect();
+            if pending.len() != unacked {
+                fail = Some(format!("input=[{}] detail=[only {} of {} live messages forwarded]", desc, pending.len(), unacked));
+                break 'outer;
+            }
+            send(&mut r, &s, vec![subscribe(2, &[("ret/#", 1)])]);
+            let mut got: Vec<(String, String, u8, bool)> = vec![];
+            for _ in 0..50 {
+                let batch = drain(&mut r, &s);
+                for n in &batch {
+                    if let RNotification::Forward(Forward { publish, .. }) = n {
+                        got.push((String::from_utf8_lossy(&publish.topic).to_string(), String::from_utf8_lossy(&publish.payload).to_string(), publish.qos as u8, publish.retain));
+                        pending.push(publish.pkid);
+                    }
+                }
+                if pending.is_empty() {
+                    break;
+                }
+                // now everything is acknowledged in order
+                let acks: Vec<Packet> = pending.drain(..).map(puback).collect();
+                send(&mut r, &s, acks);
+            }
+            got.sort();
+            let mut exp: Vec<(String, String, u8, bool)> = (0..retained).map(|i| (format!("ret/{}", i), format!("keep{}", i), 1u8, true)).collect();
+            exp.sort();
+            if got != exp {
+                fail = Some(format!("input=[{}] detail=[after everything was acknowledged the new subscription had received {:?}, expected {:?}]", desc, got, exp));
+                break 'outer;
+            }
+        }
+    }
+    report(name, "C15", "0/98/99 unacknowledged forwards x 1..2 retained messages that still fit the window of 100", cases, fail);
+}
+
+/// C08: a saved session survives a refused reconnect (broker full) and exists for a client without subscriptions
+// @native props=C08,C19 tier=quick fn=Router::handle_new_connection+Graveyard::save_state
+#[test]
+fn saved_session_survives_refused_reconnect_and_needs_no_subscription() {
+    let name = "rumqttd::Router#saved_session_survives_refusal_and_empty_session_is_a_session";
+    let mut cases = 0u64;
+    let mut fail: Option<String> = None;
+    // (1) a persistent client with no subscription at all still has a session
+    for cycles in 1..=2 {
+        cases += 1;
+        let mut r = new_router();
+        let mut c = connect(&mut r, "c", false).unwrap();
+        let _ = drain(&mut r, &c);
+        for k in 0..cycles {
+            r.events(c.id, Event::Disconnect);
+            settle(&mut r);
+            c = connect(&mut r, "c", false).unwrap();
+            let txt = shown(&drain(&mut r, &c));
+            if txt != vec!["CONNACK(sp=true)".to_string()] {
+                fail = Some(format!("input=[persistent client without subscriptions, reconnect {}] detail=[got {:?}]", k, txt));
+            }
+        }
+    }
+    // (2) a reconnect that is refused because the broker is full must not destroy the saved session
+    if fail.is_none() {
+        for unacked in 0..=2usize {
+            cases += 1;
+            let desc = format!("limit 3 connections; persistent client with a subscription and {} unacknowledged message(s) goes away; two others connect; its reconnect is refused; one leaves; it reconnects", unacked);
+            let mut r = Router::new(0, RouterConfig { max_connections: 3, ..cfg(1024 * 1024, 10, Strategy::RoundRobin) });
+            let p = connect(&mut r, "p", true).unwrap();
+            let c = connect(&mut r, "c", false).unwrap();
+            send(&mut r, &c, vec![subscribe(1, &[("s/#", 1)])]);
+            for i in 0..unacked {
+                send(&mut r, &p, vec![publish("s/t", 0, 0, &format!("m{}", i), false)]);
+            }
+            let _ = drain(&mut r, &c);
+            r.events(c.id, Event::Disconnect);
+            settle(&mut r);
+            let o1 = connect(&mut r, "o1", true).unwrap();
+            let _o2 = connect(&mut r, "o2", true).unwrap();
+            if connect(&mut r, "c", false).is_some() {
+                fail = Some(format!("input=[{}] detail=[a fourth connection was admitted]", desc));
+                break;
+            }
+            r.events(o1.id, Event::Disconnect);
+            settle(&mut r);
+            let c2 = match connect(&mut r, "c", false) { Some(x) => x, None => { fail = Some(format!("input=[{}] detail=[reconnect refused although a slot is free]", desc)); break; } };
+            let notes = drain(&mut r, &c2);
+            let txt = shown(&notes);
+            let redelivered: Vec<String> = notes.iter().filter_map(|n| match n { RNotification::Forward(Forward { publish, .. }) => Some(String::from_utf8_lossy(&publish.payload).to_string()), _ => None }).collect();
+            let exp: Vec<String> = (0..unacked).map(|i| format!("m{}", i)).collect();
+            if !txt.contains(&"CONNACK(sp=true)".to_string()) || redelivered != exp {
+                fail = Some(format!("input=[{}] detail=[got {:?}; expected session present and redelivery of {:?}]", desc, txt, exp));
+                break;
+            }
+        }
+    }
+    report(name, "C08,C19", "persistent client without subscriptions (1..2 reconnects); refused reconnect at the connection limit with 0..2 unacknowledged messages", cases, fail);
 }
